@@ -221,12 +221,14 @@ def run(tier):
     ck.rule("E7.voxel-point-dependence", "voxel assembly kernels (poisson / defo / burgers matrix and defect, host-generic path): in one step of the cubature loop every datum entering the accumulation is computed at the CURRENT cubature point: the determinant factor is det of the Jacobian from calc_jac_mat(cub_pt[k]), the transformed gradients come from eval_ref_gradients(cub_pt[k]) and trans_gradients with the inverse of that same Jacobian, values from eval_ref_values(cub_pt[k]); a Jacobian evaluated outside the loop (e.g. at the cell centre) is exact on parallelogram cells only, the Standard trafo is multilinear", 6)
     ck.rule("E7.voxel-weight-once", "voxel assembly kernels: every term accumulated into the local matrix/vector in the cubature loop carries exactly one factor det(J(cub_pt[k])) and exactly one factor cub_wg[k] of the same loop index k", 6)
 
-    ck.rule("E7.guarded-def-use", "Burgers assemblers / jobs / voxel kernels: a local (or task member) that is recomputed per cubature point under a guard G_w (format()/assignment inside the point loop resp. in prepare_point()) is read afterwards only under guards G_r with G_r => G_w (propositional over the switch flags, const bool locals resolved through their initialisers); otherwise, for a parameter set with G_r and not G_w, the term is assembled from a stale/zero value", 23)
+    ck.rule("E7.guarded-def-use", "Burgers assemblers / jobs / voxel kernels: a local (or task member) that is recomputed per cubature point / per cell under a guard G_w (format()/assignment inside the point loop resp. in the task's prepare(cell) / prepare_point()) is read afterwards (for task members: in any other method of the task, e.g. assemble_burgers_point / assemble_streamline_diffusion) only under guards G_r with G_r => OR of the G_w (propositional over the switch flags and comparison atoms, const bool locals resolved through their initialisers); otherwise, for a parameter set / cell with G_r and no G_w, the term is assembled from the value left by the previous point or the previous CELL (per-cell state that is only conditionally recomputed has to be reset on the remaining paths)", 27)
     ck.rule("E7.output-cleared", "assemblers that scatter into caller matrices: an output that the function clears with format() at all is cleared on EVERY path from entry to the scatter loop, all outputs of one function are treated alike, and functions documented to assemble (not add) clear their outputs; otherwise a re-assembly adds onto the old content", 11)
 
     ck.rule("E2.element-index-kind", "DomainAssembler: a function that reorders the element list (reads the old _element_indices and stores into it: _build_layers, _build_colors) stores only values taken from the old list (possibly through a copy / an in-place translated work array), never a position inside the list: positions equal mesh element numbers only when the assembler was compiled for all elements in mesh order, otherwise the wrong cells are assembled", 4)
     ck.rule("E7.caller-kernel-gating", "voxel host loops: a cell-local array that the host fills (gathers) only under a guard G_w and hands to the shared kernel is read by the kernel only under guards that imply G_w once the kernel's flag parameters are replaced by the call's arguments; otherwise, for a parameter set with the read guard true and G_w false, the kernel computes with the zero-initialised array", 4)
 
+    ck.rule("E7.facet-slot-consistency", "TraceAssembler routes: the per-facet records (_facets, _cells, _cell_facet, _facet_ori are parallel arrays, one record per slot) are used slot-wise: whenever a cell trafo / space evaluator that was prepared from the record of slot s is evaluated, its input (the cubature point mapped through FaceRefTrafo(_cell_facet) and CongruencyTrafo(_facet_ori), resp. the trafo data) depends on the same slot s of every array on every path (?: conditions enumerated), and basis data of one side is indexed with local dof numbers of the same side (CommonDofMap followed field-wise); the point of every cell-trafo evaluation depends on all arrays its sibling routes use. Dependence tags are over-approximated, a verdict is drawn only from the ABSENCE of the required slot; compile() / compile_all_facets() append to all these arrays together (one record per slot)", 99)
+    ck.rule("E7.clear-resets-selection", "assembler classes with add_*() / compile() / clear() (TraceAssembler): every member through which a public mutator other than compile()/clear() records the selection (written by add_facet / add_mesh_part) and which compile() reads is reset by clear() (container cleared / assigned, or every element assigned in a loop over that container); a loop over a container that was emptied just before never executes. Otherwise clear() + add_*() + compile() assembles on the union of the old and the new selection, i.e. the integral over the wrong set of facets", 1)
     facts = featlib.extract("tu/c16_assembly.cpp", files=FILES)
     ck.tu(facts)
     for e in facts.errors_outside_repo():
@@ -246,7 +248,7 @@ def run(tier):
     for e in facts_b.errors_in_repo():
         ck.ob("E7.guarded-def-use", "E0/%s/%s" % (rel(e["file"]), re.sub(r"\d+", "N", e["msg"])[:80]), False, "front-end error %s:%d %s" % (rel(e["file"]), e["line"], e["msg"]), e["file"], e["line"])
     named = [("classic", facts_b, lambda f: "burgers_assembler.hpp" in f.file and f.name.startswith("assemble")),
-             ("job", facts_b, lambda f: "burgers_assembly_job.hpp" in f.file and f.name in ("prepare", "prepare_point", "assemble", "assemble_burgers_point", "assemble_matrix_point", "assemble_vector_point", "scatter"))]
+             ("job", facts_b, lambda f: "burgers_assembly_job.hpp" in f.file and bool(f.cls) and f.body is not None and not f.d.get("inits") and symex.strip_targs(f.cls).rsplit("::", 1)[-1] != f.name)]
     try:
         facts_v = featlib.extract(F(VOXEL_TUS["burgers"]), files=VOXEL_FILES)
         named.append(("voxel", facts_v, lambda f: f.name.endswith("_assembly_kernel") and "Hypercube<2>" in f.full and ", double, " in f.full))
@@ -258,6 +260,17 @@ def run(tier):
     check_element_index_kind(ck, tier)
     check_outputs_cleared(ck, facts_b, tier)
     check_outputs_cleared(ck, facts, tier)
+    try:
+        facts_t = featlib.extract("tu/c16_trace.cpp", files=TRACE_FILES)
+        ck.tu(facts_t)
+        for e in facts_t.errors_outside_repo():
+            ck.incomplete("E7.facet-slot-consistency", "driver tu/c16_trace.cpp no longer matches the API: %s:%d %s" % (e["file"], e["line"], e["msg"]))
+        for e in facts_t.errors_in_repo():
+            ck.ob("E7.facet-slot-consistency", "E0/%s/%s" % (rel(e["file"]), re.sub(r"\d+", "N", e["msg"])[:80]), False, "front-end error %s:%d %s" % (rel(e["file"]), e["line"], e["msg"]), e["file"], e["line"])
+        check_trace_slots(ck, facts_t, tier)
+        check_clear_resets(ck, facts_t, tier)
+    except featlib.AnalysisBroken as e:
+        ck.incomplete("E7.facet-slot-consistency", str(e))
     if tier == "thorough":
         # breadth: the same rules on the float instantiation of every template (same keys; the detail names the instantiation)
         facts_f = featlib.extract("tu/c16_assembly.cpp", files=FILES, extra=("-DC16_DT=float",))
@@ -272,10 +285,11 @@ def run(tier):
     ck.assume("phi = trial, psi = test in Evaluator::eval(phi, psi) (kernel/assembly/bilinear_operator.hpp); the driver instantiates every two-space route with test = Lagrange2, trial = Lagrange1 in the API's (test, trial) positions, roles are then read off the resolved evaluator / dof-mapping types")
     ck.assume("documented integrands are transcribed once (operator_table) with anchor texts from kernel/assembly/common_operators.hpp; a changed anchor is analysis-incomplete, not a verdict")
     ck.assume("Trafo::EvaluatorBase::ConfigTraits closure: jac_det / jac_inv / hess_inv imply jac_mat, hess_inv implies hess_ten and jac_inv, dom_point always; the assemblers add jac_det")
+    ck.assume("TraceAssembler: a slot of the parallel arrays _facets, _cells, _cell_facet, _facet_ori is identified by the value of the facet-loop index relative to the start of the iteration; which VALUE compile() stores in which array is not decided")
     expl = ("Operators of common_operators.hpp: exact normal form of every eval body (engine E11) against the transcribed documented integrand, completeness of matrix values, "
             "config tags vs data read, symmetry, kernel of constants. Assembly routes (BilinearOperatorAssembler::assemble_matrix1/2, apply1/2, LinearFunctionalAssembler, the domain-assembler "
             "job tasks): normal form of one abstract accumulation step with resolved operand roles, weight/jac_det factors, scatter roles. CSR/BCSR scatter/gather index discipline; "
-            "symbolic assembler graph composition. Voxel kernels (poisson, defo, burgers matrix/defect; burgers with need_streamline = false): point dependence of Jacobian/gradient data and det*weight factors of every accumulated term. NOT decided: numerical equality with exact integrals, classic Burgers/GPDV/trace assemblers, the streamline-diffusion branch and the OpenMP/CUDA wrappers of the voxel assemblers, agreement of routes as numbers, cubature degree sufficiency.")
+            "symbolic assembler graph composition. Voxel kernels (poisson, defo, burgers matrix/defect; burgers with need_streamline = false): point dependence of Jacobian/gradient data and det*weight factors of every accumulated term. TraceAssembler routes (all 8, quadrilateral / triangle / hexahedral instantiation): slot-wise use of the parallel per-facet arrays (cell, local facet, orientation code of BOTH sides of an inner facet) by dependence tags. NOT decided: numerical equality with exact integrals, the integrands of the classic Burgers/GPDV/trace assemblers, the streamline-diffusion branch and the OpenMP/CUDA wrappers of the voxel assemblers, agreement of routes as numbers, cubature degree sufficiency.")
     return ck.finish(expl)
 
 
@@ -1484,6 +1498,9 @@ def collect_defuse(fn):
     return kills, reads, G
 
 
+WRITER_METHODS = ("prepare", "prepare_point")     # executed once per cell / per cubature point before the assemble methods
+
+
 def check_guarded_defuse(ck, facts_list_named, tier):
     """facts_list_named: [(label, facts, function filter)]"""
     for label, facts, want in facts_list_named:
@@ -1499,7 +1516,7 @@ def check_guarded_defuse(ck, facts_list_named, tier):
             seen_fn.add(sig)
             kills, reads, G = collect_defuse(f)
             analysed.append((f, kills, reads, G))
-            if f.name == "prepare_point":
+            if f.name in WRITER_METHODS:
                 for kl in kills:
                     if kl["var"][0] == "m":
                         member_kills.setdefault(kl["var"][1], []).append((f, kl, [s[1] for s in kl["stack"] if s[0] == "if"]))
@@ -1548,28 +1565,31 @@ def check_guarded_defuse(ck, facts_list_named, tier):
                     if nreads:
                         _finish(ck, "E7.guarded-def-use", "%s/%s/%s" % (label, short, var[2]), problems, unknown,
                                 "%d reads are dominated by a (re)computation under an implied guard" % nreads, f.file, rk[0]["line"])
-            # cross-method reads of members recomputed in prepare_point
-            if f.name != "prepare_point" and member_kills:
-                done = set()
+            # cross-method reads of task members that prepare(cell) / prepare_point() (re)compute: every (re)computation is
+            # conditional => the read guard has to imply one of them, otherwise the value of the previous cell / point survives
+            if f.name not in WRITER_METHODS and member_kills:
+                agg = {}
                 for rd in reads:
                     if rd["var"][0] != "m" or rd["var"][1] not in member_kills:
                         continue
                     mk = member_kills[rd["var"][1]]
                     if any(not g for (_, _, g) in mk):
                         continue     # unconditionally recomputed
+                    writers = "+".join(sorted({w.name for (w, _, _) in mk}))
+                    key = "%s/%s/%s<-%s" % (label, short, rd["var"][2], writers)
+                    a = agg.setdefault(key, {"problems": [], "unknown": [], "n": 0, "line": rd["line"]})
+                    a["n"] += 1
                     gr = _Guards.conj([s[1] for s in rd["stack"] if s[0] == "if"])
                     gws = [_Guards.conj(g) for (_, _, g) in mk]
                     cex, related = _Guards.implies(gr, gws)
-                    key = "%s/%s/%s<-prepare_point" % (label, short, rd["var"][2])
-                    if key in done and cex is None:
-                        continue
-                    done.add(key)
                     if cex is not None:
-                        msg = "member %s is read at line %s under %s but prepare_point() recomputes it only under %s (counterexample %s)" % (
-                            rd["var"][2], rd["line"], _Guards.show(gr), " || ".join(_Guards.show(g) for g in gws), ", ".join("%s=%s" % (k, "true" if v else "false") for k, v in sorted(cex.items())))
-                        _finish(ck, "E7.guarded-def-use", key, [] if related else [msg], [msg] if related else [], "", f.file, rd["line"])
-                    else:
-                        _finish(ck, "E7.guarded-def-use", key, [], [], "read guard implies the guard of the recomputation in prepare_point()", f.file, rd["line"])
+                        msg = "member %s is read at line %s under %s but %s() (re)computes it only under %s: for %s it still holds the value of the previous cell/point" % (
+                            rd["var"][2], rd["line"], _Guards.show(gr), writers, " || ".join(_Guards.show(g) for g in gws),
+                            ", ".join("%s=%s" % (k, "true" if v else "false") for k, v in sorted(cex.items())))
+                        a["unknown" if related else "problems"].append(msg)
+                for key, a in sorted(agg.items()):
+                    _finish(ck, "E7.guarded-def-use", key, a["problems"], a["unknown"],
+                            "%d reads: the read guard implies the guard of a (re)computation in the per-cell / per-point method" % a["n"], f.file, a["line"])
 
 
 def check_outputs_cleared(ck, facts, tier):
@@ -1967,3 +1987,760 @@ def check_caller_kernel_gating(ck, facts, label, tier):
                         kern.name, p["n"], line, short, f.name, pw[0][2], pw[0][1], " || ".join(re.sub(r"FEAT::[\w:]*::", "", _Guards.show(g)) for g in gws),
                         ", ".join("%s=%s" % (re.sub(r"FEAT::[\w:]*::", "", k2), "true" if v else "false") for k2, v in sorted(cex.items())))
                     _finish(ck, "E7.caller-kernel-gating", key, [] if related else [msg], [msg] if related else [], "", f.file, pw[0][1])
+
+
+# -------------------------------------------------------------------------------------------------
+# TraceAssembler: slot consistency of the parallel per-facet arrays (_cells / _cell_facet / _facet_ori / _facets)
+# -------------------------------------------------------------------------------------------------
+
+TRACE_FILES = "|".join([F("kernel/assembly/trace_assembler.hpp"), "/verif/tu/c16_trace"])
+_INT_TYPE = re.compile(r"^(const )?(FEAT::Index|Index|int|unsigned int|long|unsigned long|std::size_t|size_t|std::vector::size_type|IndexType|IT)$")
+_ASSIGN_OPS = ("=", "+=", "-=", "*=", "/=", "%=", "|=", "&=", "^=", "<<=", ">>=")
+UNKNOWN_SLOT = ("?", 0)
+
+
+class SlotFlow:
+    """forward dependence tags: which slot of the assembler's member arrays does a value depend on.
+    tag = (array name, slot, conds); slot = (symbolic base of the index, offset) with the base taken at the start of
+    the current iteration of the loop that advances the index, conds = frozenset of (condition key, polarity) from ?:.
+    The tag sets are over-approximations of the true data dependence (calls: every output depends on every input),
+    therefore only the ABSENCE of a tag is a definite statement."""
+
+    def __init__(self, facts, fn, inline):
+        self.facts, self.fn = facts, fn
+        self.by_decl = {}
+        for f in facts.functions:
+            if f.tk != "pattern" and f.body is not None and f.d.get("decl") is not None:
+                self.by_decl[f.d["decl"]] = f
+        self.inline = inline
+        self.tags = {}
+        self.alias = {}
+        self.idx = {}
+        self.names = {}
+        self.prepared = {}
+        self.frames = [{"this": None, "ret": set(), "fn": fn, "path": ()}]
+        self.events = {}
+        self.fresh = 0
+        self.nslots = 0
+
+    # ---- store
+    def read(self, key):
+        if key is None:
+            return frozenset()
+        T = set(self.tags.get(key, ()))
+        if key[0] == "f":
+            # a field: its own tags and what was written to the enclosing object as a whole (not the sibling fields)
+            o = key[1]
+            while o is not None:
+                T |= self.tags.get(o, frozenset())
+                o = o[1] if o[0] == "f" else None
+        else:
+            for k2, v in self.tags.items():
+                if k2[0] == "f" and k2[1] == key:
+                    T |= v
+        return frozenset(T)
+
+    def write(self, key, T, strong=False):
+        if key is None:
+            return
+        if strong:
+            self.tags[key] = frozenset(T)
+            for k2 in [k2 for k2 in self.tags if k2[0] == "f" and k2[1] == key]:
+                del self.tags[k2]
+        else:
+            self.tags[key] = frozenset(self.tags.get(key, frozenset()) | T)
+
+    def cur(self):
+        return self.frames[-1]
+
+    def type(self, n):
+        return self.cur()["fn"].type(n.get("t"))
+
+    def root(self, n):
+        while isinstance(n, dict):
+            k = n.get("k")
+            if k == "Ref":
+                if n.get("dk") in ("local", "param"):
+                    key = ("l", n["d"])
+                    return self.alias.get(key, key)
+                return None
+            if k == "This":
+                return self.cur()["this"]
+            if k == "Member":
+                b = n.get("b") or {}
+                if b.get("k") == "This" and n.get("field"):
+                    th = self.cur()["this"]
+                    return ("m", n.get("n")) if th is None else ("f", th, n.get("n"))
+                n = b
+            elif k == "Index":
+                n = n.get("b")
+            elif k == "OpCall" and n.get("a") and (n.get("op") in ("[]", "()", "->") or (n.get("op") == "*" and len(n["a"]) == 1)):
+                n = n["a"][0]
+            elif k in ("Cast", "Paren"):
+                n = n.get("e")
+            elif k == "Un" and n.get("op") in ("*", "&"):
+                n = n.get("e")
+            elif k == "MCall":
+                n = n.get("obj")
+            else:
+                return None
+        return None
+
+    # ---- symbolic index values
+    def sym(self, n):
+        while isinstance(n, dict) and n.get("k") in ("Cast", "Paren") or (isinstance(n, dict) and n.get("k") in ("Construct", "TempObj") and len(n.get("a") or []) == 1):
+            n = n.get("e") if n.get("k") in ("Cast", "Paren") else n["a"][0]
+        if not isinstance(n, dict):
+            return UNKNOWN_SLOT
+        k = n.get("k")
+        if k == "Int":
+            return (("c",), int(n.get("v", 0)))
+        if k == "Ref" and n.get("dk") in ("local", "param"):
+            key = self.alias.get(("l", n["d"]), ("l", n["d"]))
+            if key[0] == "l":
+                self.names.setdefault(key[1], n.get("n"))
+                return self.idx.get(key[1], (("v", key[1]), 0))
+            return UNKNOWN_SLOT
+        if k == "Bin" and n.get("op") in ("+", "-"):
+            a, b = self.sym(n["lhs"]), self.sym(n["rhs"])
+            if a[0] != "?" and b[0] == ("c",):
+                return (a[0], a[1] + (b[1] if n["op"] == "+" else -b[1]))
+            if n["op"] == "+" and b[0] != "?" and a[0] == ("c",):
+                return (b[0], b[1] + a[1])
+        return UNKNOWN_SLOT
+
+    def show_slot(self, s):
+        if s[0] == "?":
+            return "?"
+        b = s[0]
+        name = "" if b == ("c",) else (self.names.get(b[1], "v%s" % b[1]) if b[0] in ("v", "it") else "?")
+        if not name:
+            return str(s[1])
+        return name if s[1] == 0 else "%s%+d" % (name, s[1])
+
+    # ---- expressions / statements
+    def ev(self, n):
+        if not isinstance(n, dict):
+            return frozenset()
+        m = getattr(self, "ev_" + str(n.get("k")), None)
+        if m is not None:
+            return m(n)
+        T = set()
+        for c in featlib.children(n):
+            T |= self.ev(c)
+        return frozenset(T)
+
+    def ev_Block(self, n):
+        for s in n.get("s") or []:
+            self.ev(s)
+        return frozenset()
+
+    def ev_Decl(self, n):
+        for vd in n.get("vars", []):
+            self.ev(vd)
+        return frozenset()
+
+    def ev_Var(self, n):
+        key = ("l", n["d"])
+        self.names[n["d"]] = n.get("n")
+        ty = self.type(n)
+        init = n.get("init")
+        T = self.ev(init) if init is not None else frozenset()
+        is_ref = bool(n.get("ref")) or ty.rstrip().endswith("&")
+        if is_ref and init is not None:
+            r = self.root(init)
+            if r is not None:
+                self.alias[key] = r
+                return frozenset()
+        self.alias.pop(key, None)
+        self.write(key, T, strong=True)
+        if _INT_TYPE.match(ty.strip()):
+            self.idx[n["d"]] = self.sym(init) if init is not None else UNKNOWN_SLOT
+        return frozenset()
+
+    def ev_Ref(self, n):
+        if n.get("dk") in ("local", "param"):
+            self.names.setdefault(n["d"], n.get("n"))
+            return self.read(self.alias.get(("l", n["d"]), ("l", n["d"])))
+        return frozenset()
+
+    def ev_This(self, n):
+        return self.read(self.cur()["this"])
+
+    def ev_Member(self, n):
+        b = n.get("b") or {}
+        if b.get("k") == "This":
+            th = self.cur()["this"]
+            if th is None:
+                return self.read(("m", n.get("n")))
+            return self.read(("f", th, n.get("n")))
+        return self.ev(b)
+
+    def ev_Un(self, n):
+        e = n.get("e")
+        if n.get("op") in ("++", "--", "post++", "post--", "++post", "--post") or "++" in str(n.get("op")) or "--" in str(n.get("op")):
+            if isinstance(e, dict) and e.get("k") == "Ref" and e.get("dk") in ("local", "param"):
+                d = self.alias.get(("l", e["d"]), ("l", e["d"]))
+                if d[0] == "l":
+                    v = self.idx.get(d[1], (("v", d[1]), 0))
+                    self.idx[d[1]] = UNKNOWN_SLOT if v[0] == "?" else (v[0], v[1] + (1 if "++" in n["op"] else -1))
+        return self.ev(e)
+
+    def ev_Bin(self, n):
+        return self.ev(n.get("lhs")) | self.ev(n.get("rhs"))
+
+    def annotate(self, T, ckey, pol):
+        out = set()
+        for (a, s, c) in T:
+            if (ckey, not pol) in c:
+                continue
+            out.add((a, s, frozenset(c | {(ckey, pol)})))
+        return out
+
+    def cond_key(self, c, pol=True):
+        while isinstance(c, dict) and c.get("k") in ("Cast", "Paren"):
+            c = c.get("e")
+        if isinstance(c, dict) and c.get("k") == "Un" and c.get("op") == "!":
+            return self.cond_key(c.get("e"), not pol)
+        if isinstance(c, dict) and c.get("k") == "Ref" and c.get("dk") in ("local", "param"):
+            return ("v", c["d"], c.get("n")), pol
+        return ("e", 0, featlib.render(c)), pol
+
+    def ev_Cond(self, n):
+        self.ev(n.get("c"))
+        ckey, pol = self.cond_key(n.get("c"))
+        return frozenset(self.annotate(self.ev(n.get("then")), ckey, pol) | self.annotate(self.ev(n.get("else")), ckey, not pol))
+
+    def ev_Assign(self, n):
+        lhs, rhs = n.get("lhs"), n.get("rhs")
+        T = self.ev(rhs)
+        op = n.get("op", "=")
+        if op != "=":
+            T = T | self.ev(lhs)
+        else:
+            self.index_effects(lhs)
+        key = self.root(lhs)
+        plain = isinstance(lhs, dict) and lhs.get("k") == "Ref"
+        if plain and key is not None and key[0] == "l":
+            if op == "=":
+                self.idx[key[1]] = self.sym(rhs)
+            elif key[1] in self.idx:
+                self.idx[key[1]] = UNKNOWN_SLOT
+        self.write(key, T, strong=(plain and op == "="))
+        return T
+
+    def index_effects(self, lhs):
+        """evaluate the index sub-expressions of an lvalue (for the consistency events) without reading the target"""
+        if isinstance(lhs, dict) and (lhs.get("k") == "Index" or (lhs.get("k") == "OpCall" and lhs.get("op") in ("[]", "()"))):
+            self.ev(lhs)
+
+    def fork(self, branches):
+        """run the alternatives on copies of the state and merge (tags: union, counters: equal or unknown)"""
+        base_tags, base_idx, base_alias = dict(self.tags), dict(self.idx), dict(self.alias)
+        results = []
+        for b in branches:
+            self.tags, self.idx, self.alias = dict(base_tags), dict(base_idx), dict(base_alias)
+            if b is not None:
+                self.ev(b)
+            results.append((self.tags, self.idx, self.alias))
+        tags = {}
+        for t, _, _ in results:
+            for k, v in t.items():
+                tags[k] = frozenset(tags.get(k, frozenset()) | v)
+        idx = {}
+        for d in set().union(*[set(i) for _, i, _ in results]):
+            vals = {i.get(d, (("v", d), 0)) for _, i, _ in results}
+            idx[d] = vals.pop() if len(vals) == 1 else UNKNOWN_SLOT
+        alias = {}
+        for _, _, a in results:
+            alias.update(a)
+        self.tags, self.idx, self.alias = tags, idx, alias
+
+    def ev_If(self, n):
+        self.ev(n.get("init"))
+        self.ev(n.get("c"))
+        self.fork([n.get("then"), n.get("else")])
+        return frozenset()
+
+    def modified_counters(self, nodes):
+        out = set()
+        for part in nodes:
+            for x in walk(part):
+                e = None
+                if x.get("k") == "Un" and ("++" in str(x.get("op")) or "--" in str(x.get("op"))):
+                    e = x.get("e")
+                elif x.get("k") == "Assign":
+                    e = x.get("lhs")
+                if isinstance(e, dict) and e.get("k") == "Ref" and e.get("dk") in ("local", "param"):
+                    out.add(e["d"])
+        return out
+
+    def loop(self, n, cond, inc, body, pre=None):
+        self.ev(n.get("init"))
+        if pre is not None:
+            self.ev(pre)
+        mod = self.modified_counters([x for x in (inc, body) if x is not None])
+        for _ in range(2):
+            for d in mod:
+                if d in self.idx or True:
+                    self.idx[d] = (("it", d), 0)
+            # the counter of a counting loop ranges over the extent given by its bound
+            c = cond
+            if isinstance(c, dict) and c.get("k") == "Bin" and c.get("op") in ("<", "<=", "!=", ">", ">="):
+                for a, b in ((c.get("lhs"), c.get("rhs")), (c.get("rhs"), c.get("lhs"))):
+                    while isinstance(a, dict) and a.get("k") in ("Cast", "Paren"):
+                        a = a.get("e")
+                    if isinstance(a, dict) and a.get("k") == "Ref" and a.get("d") in mod:
+                        self.write(("l", a["d"]), self.ev(b))
+            self.ev(cond)
+            self.ev(body)
+            self.ev(inc)
+        for d in mod:
+            self.idx[d] = UNKNOWN_SLOT
+
+    def ev_For(self, n):
+        self.loop(n, n.get("c"), n.get("inc"), n.get("body"))
+        return frozenset()
+
+    def ev_While(self, n):
+        self.loop(n, n.get("c"), None, n.get("body"))
+        return frozenset()
+
+    def ev_Do(self, n):
+        self.loop(n, n.get("c"), None, n.get("body"))
+        return frozenset()
+
+    def ev_ForRange(self, n):
+        var = n.get("var")
+        T = self.ev(n.get("range"))
+        if isinstance(var, dict) and var.get("d") is not None:
+            self.write(("l", var["d"]), T)
+        self.loop({}, None, None, n.get("body"))
+        return frozenset()
+
+    def ev_Return(self, n):
+        T = self.ev(n.get("e"))
+        self.cur()["ret"] |= T
+        return frozenset()
+
+    def ev_Index(self, n):
+        return self.indexed(n, n.get("b"), [n.get("idx")])
+
+    def indexed(self, n, base, idxs):
+        Tb = self.ev(base)
+        Ti = frozenset().union(*[self.ev(i) for i in idxs]) if idxs else frozenset()
+        extra = set()
+        while isinstance(base, dict) and base.get("k") in ("Cast", "Paren"):
+            base = base.get("e")
+        if self.cur()["this"] is None and isinstance(base, dict) and base.get("k") == "Member" and (base.get("b") or {}).get("k") == "This" and len(idxs) == 1:
+            extra.add((base.get("n"), self.sym(idxs[0]), frozenset()))
+            self.nslots += 1
+        if Tb and Ti:
+            self.event("index", n, Tb, Ti, featlib.render(n))
+        return frozenset(Tb | Ti | extra)
+
+    def event(self, kind, n, owner, inp, text, extra=None):
+        self.events[(self.cur()["path"], n.get("i"))] = {"kind": kind, "owner": owner, "input": inp, "text": text, "line": n.get("l"),
+                                                         "file": self.cur()["fn"].file, "callee": n.get("callee", ""), "extra": extra}
+
+    def ptypes(self, n):
+        fn = self.cur()["fn"]
+        return [fn.type(x) if isinstance(x, int) else str(x) for x in (n.get("pt") or [])]
+
+    @staticmethod
+    def is_out(t):
+        t = t.strip()
+        return (t.endswith("&") and not t.endswith("&&") and not t.startswith("const ")) or (t.endswith("*") and not t.startswith("const "))
+
+    def call(self, n, obj, args, const_method):
+        Tobj = self.ev(obj) if obj is not None else frozenset()
+        Targs = [self.ev(a) for a in args]
+        U = frozenset().union(*Targs) if Targs else frozenset()
+        callee = self.by_decl.get(n.get("cdecl"))
+        if callee is not None and len(self.frames) < 4 and self.inline(n, callee):
+            return self.do_inline(n, callee, obj, args, Targs)
+        pts = self.ptypes(n)
+        for a, t in zip(args, pts):
+            if self.is_out(t):
+                self.write(self.root(a), Tobj | U)
+        if obj is not None and not const_method:
+            self.write(self.root(obj), U)
+        return frozenset(Tobj | U)
+
+    def do_inline(self, n, callee, obj, args, Targs):
+        th = self.root(obj) if obj is not None else None
+        if obj is not None and th is None:
+            self.fresh += 1
+            th = ("tmp", self.fresh)
+            self.write(th, self.ev(obj), strong=True)
+        frame = {"this": th, "ret": set(), "fn": callee, "path": self.cur()["path"] + (n.get("i"),)}
+        binds = []
+        for p, a, T in zip(callee.params, args, Targs):
+            key = ("l", p["d"])
+            ty = callee.type(p.get("t")).strip()
+            r = self.root(a)
+            if ty.endswith("&") and r is not None:
+                binds.append(("alias", key, r, None))
+            else:
+                binds.append(("val", key, T, (p["d"], self.sym(a)) if _INT_TYPE.match(ty) else None))
+        self.frames.append(frame)
+        for kind, key, v, iv in binds:
+            if kind == "alias":
+                self.alias[key] = v
+            else:
+                self.alias.pop(key, None)
+                self.write(key, v, strong=True)
+                if iv is not None:
+                    self.idx[iv[0]] = iv[1]
+        self.ev(callee.body)
+        self.frames.pop()
+        return frozenset(frame["ret"])
+
+    def ev_Call(self, n):
+        return self.call(n, None, n.get("a") or [], True)
+
+    def ev_Construct(self, n):
+        return self.call(n, None, n.get("a") or [], True)
+
+    def ev_TempObj(self, n):
+        return self.call(n, None, n.get("a") or [], True)
+
+    def ev_MCall(self, n):
+        obj = n.get("obj")
+        if n.get("n") == "prepare":
+            r = self.root(obj)
+            if r is not None:
+                self.prepared[r] = n.get("callee", "")
+        return self.call(n, obj, n.get("a") or [], bool(n.get("cconst")))
+
+    def ev_OpCall(self, n):
+        a = n.get("a") or []
+        op = n.get("op")
+        member = len(a) == len(n.get("pt") or []) + 1
+        if op == "[]" and len(a) == 2:
+            return self.indexed(n, a[0], a[1:])
+        if op == "()" and member and a:
+            r = self.root(a[0])
+            if r is not None and r in self.prepared:
+                To = self.ev(a[0])
+                pts = self.ptypes(n)
+                Tin = frozenset().union(*[self.ev(x) for x, t in zip(a[1:], pts) if not self.is_out(t)]) if len(a) > 1 else frozenset()
+                self.event("eval", n, To, Tin, featlib.render(n), extra=self.prepared[r])
+                return self.call(n, a[0], a[1:], bool(n.get("cconst")))
+            callee = self.by_decl.get(n.get("cdecl"))
+            if callee is None or not self.inline(n, callee):
+                return self.indexed(n, a[0], a[1:])
+        if op in _ASSIGN_OPS and a:
+            T = frozenset().union(*[self.ev(x) for x in a[1:]]) if len(a) > 1 else frozenset()
+            if op != "=":
+                T = T | self.ev(a[0])
+            else:
+                self.index_effects(a[0])
+            self.write(self.root(a[0]), T, strong=(op == "=" and a[0].get("k") == "Ref"))
+            return T
+        if member and a:
+            return self.call(n, a[0], a[1:], bool(n.get("cconst")))
+        return self.call(n, None, a, True)
+
+
+def _slots_under(T, array, sigma):
+    """slots of `array` in T on the path described by the condition assignment sigma"""
+    out = set()
+    for (a, s, c) in T:
+        if a == array and all(sigma.get(k, p) == p for (k, p) in c):
+            out.add(s)
+    return out
+
+
+def compare_slots(sf, owner, inp, pairs):
+    """-> (problems, unknown, compared).  owner / inp: tag sets; pairs: [(array of the owner, array of the input)]"""
+    problems, unknown = [], []
+    compared = 0
+    conds = sorted({k for T in (owner, inp) for (_, _, c) in T for (k, _) in c}, key=str)
+    if len(conds) > 6:
+        return [], ["more than 6 path conditions"], 0
+    for A, B in pairs:
+        if not any(a == A for (a, _, _) in owner) or not any(a == B for (a, _, _) in inp):
+            continue
+        compared += 1
+        for bits in itertools.product((True, False), repeat=len(conds)):
+            sigma = dict(zip(conds, bits))
+            so, si = _slots_under(owner, A, sigma), _slots_under(inp, B, sigma)
+            if so == si:
+                continue
+            path = ", ".join("%s%s" % ("" if p else "!", k[2]) for k, p in sorted(sigma.items(), key=str))
+            txt = "%s[%s] vs %s[%s]%s" % (A, ",".join(sorted(sf.show_slot(s) for s in so)), B, ",".join(sorted(sf.show_slot(s) for s in si)), (" for " + path) if path else "")
+            if len(so) == 1 and not any(s[0] == "?" for s in so | si) and not (so & si):
+                problems.append(txt)
+            else:
+                unknown.append(txt)
+    return problems, unknown, compared
+
+
+def trace_inline(call, callee):
+    """helper classes defined next to the assembler (CommonDofMap, CompIndexMap) are followed, everything else is a call"""
+    return "trace_assembler.hpp" in callee.file and "::Intern::" in (callee.cls or "")
+
+
+def check_trace_slots(ck, facts, tier):
+    """E7.facet-slot-consistency"""
+    rule = "E7.facet-slot-consistency"
+    fns = [f for f in facts.functions if f.tk != "pattern" and f.body is not None and "trace_assembler.hpp" in f.file
+           and strip_targs(f.cls or "").endswith("Assembly::TraceAssembler") and f.name.startswith("assemble")]
+    groups = {}
+    for f in sorted(fns, key=lambda f: f.full):
+        m = re.search(r"Shape::(\w+)<(\d)>", f.cls)
+        shape = "%s%s" % (m.group(1), m.group(2)) if m else "?"
+        groups.setdefault((f.name, shape), []).append(f)
+    analysed = []
+    for (name, shape), fl in sorted(groups.items()):
+        for k, f in enumerate(fl):
+            label = "%s/%s%s" % (name, shape, "" if len(fl) == 1 else "#%d" % (k + 1))
+            sf = SlotFlow(facts, f, trace_inline)
+            try:
+                sf.ev(f.body)
+            except RecursionError:
+                ck.incomplete(rule, "%s: expression nesting too deep for the tag propagation" % label)
+                continue
+            analysed.append((label, f, sf))
+    # arrays through which the sibling routes map the cubature point into the cell
+    point_arrays = set()
+    for label, f, sf in analysed:
+        for ev in sf.events.values():
+            if ev["kind"] == "eval" and strip_targs(ev["callee"]).startswith("FEAT::Trafo::") and any(a == "_cells" for (a, _, _) in ev["owner"]):
+                point_arrays |= {a for (a, _, _) in ev["input"]}
+    # the arrays indexed by the facet-loop index form one record per slot: whoever appends to one appends to all, once
+    record_arrays = sorted({a for _, _, sf in analysed for ev in sf.events.values() for T in (ev["owner"], ev["input"]) for (a, _, _) in T})
+    seen_rec = set()
+    for f in sorted(facts.functions, key=lambda f: f.full):
+        if f.tk == "pattern" or f.body is None or "trace_assembler.hpp" not in f.file or not strip_targs(f.cls or "").endswith("Assembly::TraceAssembler"):
+            continue
+        blocks = {}
+        def visit(n, blk):
+            if not isinstance(n, dict):
+                return
+            if n.get("k") == "Block":
+                blk = n.get("i")
+            if n.get("k") == "MCall" and n.get("n") in ("push_back", "emplace_back"):
+                o = n.get("obj") or {}
+                if o.get("k") == "Member" and (o.get("b") or {}).get("k") == "This" and o.get("n") in record_arrays:
+                    blocks.setdefault(blk, []).append((o.get("n"), n.get("l")))
+            for c in featlib.children(n):
+                visit(c, blk)
+        visit(f.body, None)
+        if not blocks:
+            continue
+        m = re.search(r"Shape::(\w+)<(\d)>", f.cls)
+        key = "records/%s/%s" % (f.name, "%s%s" % (m.group(1), m.group(2)) if m else "?")
+        if key in seen_rec:
+            continue
+        seen_rec.add(key)
+        problems = []
+        for blk, pushes in sorted(blocks.items(), key=lambda kv: str(kv[0])):
+            names = sorted(a for a, _ in pushes)
+            if names != record_arrays:
+                problems.append("the block at line %s appends to %s, the routes index %s with one common slot index" % (pushes[0][1], ",".join(names), ",".join(record_arrays)))
+        _finish(ck, rule, key, problems, [], "every appending block appends exactly once to each of %s" % ",".join(record_arrays), f.file, f.line)
+    for label, f, sf in analysed:
+        evs = sorted(sf.events.items(), key=lambda kv: (len(kv[0][0]), kv[1]["line"] or 0, kv[0][1] or 0))
+        n_eval = 0
+        idx_problems, idx_unknown, idx_n = [], [], 0
+        first_idx = None
+        for key, ev in evs:
+            arrays_o = sorted({a for (a, _, _) in ev["owner"]})
+            arrays_i = sorted({a for (a, _, _) in ev["input"]})
+            if ev["kind"] == "eval":
+                if not arrays_o or not arrays_i:
+                    continue
+                n_eval += 1
+                kind = "trafo" if strip_targs(ev["callee"]).startswith("FEAT::Trafo::") else "space"
+                problems, unknown, compared = compare_slots(sf, ev["owner"], ev["input"], [(A, B) for A in arrays_o for B in arrays_i])
+                if kind == "trafo" and "_cells" in arrays_o:
+                    for a in sorted(point_arrays - set(arrays_i)):
+                        problems.append("the point does not depend on %s at all (sibling routes map the cubature point through it)" % a)
+                what = "%s: evaluator prepared from %s, input from %s" % (ev["text"], ",".join(arrays_o), ",".join(arrays_i))
+                _finish(ck, rule, "%s/%s-eval#%d" % (label, kind, n_eval), ["%s: %s" % (what, p) for p in problems], ["%s: %s" % (what, u) for u in unknown],
+                        "%s: same slot on every path (%d array pairs)" % (what, compared), ev["file"], ev["line"])
+            else:
+                common = [a for a in arrays_o if a in arrays_i]
+                if not common:
+                    continue
+                problems, unknown, compared = compare_slots(sf, ev["owner"], ev["input"], [(a, a) for a in common])
+                idx_n += 1
+                if first_idx is None:
+                    first_idx = ev
+                idx_problems += ["%s (line %s): %s" % (ev["text"], ev["line"], p) for p in problems]
+                idx_unknown += ["%s (line %s): %s" % (ev["text"], ev["line"], u) for u in unknown]
+        if idx_n:
+            _finish(ck, rule, "%s/indexed" % label, idx_problems, idx_unknown, "%d indexed accesses: index and indexed data belong to the same slot" % idx_n,
+                    first_idx["file"], first_idx["line"])
+        if not n_eval and sf.nslots:
+            ck.incomplete(rule, "%s: no evaluation of a prepared evaluator with slot-dependent input was recognised" % label)
+
+
+# -------------------------------------------------------------------------------------------------
+# clear() of an assembler undoes the selection made through its add_*() methods
+# -------------------------------------------------------------------------------------------------
+
+def _this_member_root(n):
+    """name of the this-member at the root of an lvalue / object expression, and whether the expression IS the member"""
+    direct = True
+    while isinstance(n, dict):
+        k = n.get("k")
+        if k == "Member":
+            if (n.get("b") or {}).get("k") == "This" and n.get("field"):
+                return n.get("n"), direct
+            n = n.get("b")
+        elif k == "MCall":
+            n = n.get("obj")
+        elif k == "OpCall" and n.get("a"):
+            n = n["a"][0]
+        elif k == "Index":
+            n = n.get("b")
+        elif k in ("Cast", "Paren"):
+            n = n.get("e")
+            continue
+        elif k == "Un" and n.get("op") in ("*", "&"):
+            n = n.get("e")
+        else:
+            return None, False
+        direct = False
+    return None, False
+
+
+_CONTAINER_WRITERS = ("push_back", "emplace_back", "insert", "resize", "assign", "erase", "pop_back", "swap", "emplace")
+
+
+def _members_written(fn):
+    out = {}
+    for n in fn.nodes():
+        k = n.get("k")
+        tgt = None
+        if k == "Assign":
+            tgt, _ = _this_member_root(n.get("lhs"))
+        elif k == "OpCall" and n.get("op") in _ASSIGN_OPS and n.get("a"):
+            tgt, _ = _this_member_root(n["a"][0])
+        elif k == "Un" and ("++" in str(n.get("op")) or "--" in str(n.get("op"))):
+            tgt, _ = _this_member_root(n.get("e"))
+        elif k == "MCall" and n.get("n") in _CONTAINER_WRITERS:
+            tgt, direct = _this_member_root(n.get("obj"))
+        if tgt is not None:
+            out.setdefault(tgt, n.get("l"))
+    return out
+
+
+def _members_read(fn):
+    return {n.get("n") for n in fn.nodes() if n.get("k") == "Member" and (n.get("b") or {}).get("k") == "This" and n.get("field")}
+
+
+def analyse_clear(fn):
+    """-> (reset members, dead loops [(member, line)], unknown [text])"""
+    reset, emptied, dead, unknown = set(), set(), [], []
+
+    def stmts(n):
+        if isinstance(n, dict) and n.get("k") == "Block":
+            for s in n.get("s") or []:
+                yield from stmts(s)
+        elif isinstance(n, dict):
+            yield n
+
+    for st in stmts(fn.body):
+        k = st.get("k")
+        if k == "MCall":
+            m, direct = _this_member_root(st.get("obj"))
+            if m is not None and direct and st.get("n") == "clear":
+                reset.add(m)
+                emptied.add(m)
+                continue
+            if m is not None and direct and st.get("n") in ("assign", "resize") and st.get("n") == "assign":
+                reset.add(m)
+                emptied.discard(m)
+                continue
+            if m is not None:
+                emptied.discard(m)
+                unknown.append("%s at line %s" % (featlib.render(st)[:60], st.get("l")))
+            continue
+        if k == "Assign" or (k == "OpCall" and st.get("op") == "="):
+            lhs = st.get("lhs") if k == "Assign" else (st.get("a") or [None])[0]
+            m, direct = _this_member_root(lhs)
+            if m is not None and direct:
+                reset.add(m)
+                emptied.discard(m)
+            elif m is not None:
+                unknown.append("partial assignment %s at line %s" % (featlib.render(st)[:60], st.get("l")))
+            continue
+        if k == "ForRange":
+            m, direct = _this_member_root(st.get("range"))
+            var = st.get("var") or {}
+            assigns = [x for x in walk(st.get("body")) if x.get("k") == "Assign" and x.get("op") == "=" and (x.get("lhs") or {}).get("k") == "Ref"
+                       and x["lhs"].get("d") == var.get("d")]
+            if m is not None and direct:
+                if m in emptied:
+                    dead.append((m, st.get("l")))
+                elif assigns and var.get("ref"):
+                    reset.add(m)
+                else:
+                    unknown.append("range-for over %s at line %s does not assign its elements" % (m, st.get("l")))
+                continue
+        if k == "For":
+            tg = [(_this_member_root(x.get("lhs")), x) for x in walk(st.get("body")) if x.get("k") == "Assign" and x.get("op") == "="]
+            ms = {m for ((m, d), x) in tg if m is not None and not d}
+            if ms and not any(is_call_node(x) and _this_member_root(x.get("obj") or {})[0] is None for x in walk(st.get("body")) if x.get("k") == "MCall" and x.get("n") in _CONTAINER_WRITERS):
+                bound = " ".join(featlib.render(st.get("c") or {}).split())
+                for m in ms:
+                    if "%s.size()" % m in bound.replace("this->", ""):
+                        reset.add(m)
+                    else:
+                        unknown.append("loop at line %s writes %s but is not bounded by its size" % (st.get("l"), m))
+                continue
+        if k == "Call" and strip_targs(st.get("callee", "")) in ("std::fill",) and st.get("a"):
+            m, _ = _this_member_root(st["a"][0])
+            if m is not None:
+                reset.add(m)
+                continue
+        touched = {x.get("n") for x in walk(st) if x.get("k") == "Member" and (x.get("b") or {}).get("k") == "This" and x.get("field")}
+        if touched:
+            unknown.append("%s at line %s" % (featlib.render(st)[:60], st.get("l")))
+    return reset, dead, unknown
+
+
+def is_call_node(n):
+    return featlib.is_call(n)
+
+
+def check_clear_resets(ck, facts, tier):
+    """E7.clear-resets-selection"""
+    rule = "E7.clear-resets-selection"
+    classes = {}
+    for f in facts.functions:
+        if f.tk == "pattern" or f.body is None or not f.cls or "/kernel/assembly/" not in f.file:
+            continue
+        classes.setdefault(strip_targs(f.cls), {}).setdefault(f.name, []).append(f)
+    for cls, methods in sorted(classes.items()):
+        compiles = [n for n in methods if n == "compile" or n.startswith("compile_")]
+        if "clear" not in methods or not compiles:
+            continue
+        short = cls.rsplit("::", 1)[-1]
+        pick = lambda name: sorted(methods[name], key=lambda f: f.full)[0]
+        read = set()
+        for n in compiles:
+            read |= _members_read(pick(n))
+        selection = {}
+        for name in sorted(methods):
+            f = pick(name)
+            if name == "clear" or name in compiles or name == short or name.startswith("~") or name.startswith("assemble") or f.d.get("const") or f.d.get("inits"):
+                continue
+            for m, line in _members_written(f).items():
+                if m in read:
+                    selection.setdefault(m, []).append(name)
+        fclear = pick("clear")
+        reset, dead, unknown = analyse_clear(fclear)
+        for m, writers in sorted(selection.items()):
+            key = "%s::clear/%s" % (short, m)
+            problems = []
+            if m not in reset:
+                extra = "".join("; the range-for at line %s runs over %s, which was emptied by clear() just before, and never executes" % (l, dm) for dm, l in dead)
+                problems.append("%s is written by %s() and read by %s(), but clear() does not reset it%s: after clear() the next compile() still sees the old selection" % (
+                    m, "(), ".join(sorted(set(writers))), "(), ".join(compiles), extra))
+            _finish(ck, rule, key, problems if not unknown or m in reset else [], unknown if (unknown and m not in reset) else [],
+                    "%s (written by %s, read by %s) is reset by clear()" % (m, ",".join(sorted(set(writers))), ",".join(compiles)), fclear.file, fclear.line)
